@@ -111,6 +111,46 @@ def _read_patch_quads(text: str):
     return sorted(out)
 
 
+def _third_surface(calls):
+    """the first block edge (corner pair, blockMesh convention) that the calls project to three different surfaces, or None;
+    stops at the first call that is invalid for another reason"""
+    lab = {}
+    for c in calls:
+        touched = []
+        if c[0] == "pside":
+            if c[1] not in BM_SIDE:
+                return None
+            if c[3]:
+                touched = [(frozenset(e), c[2]) for e in BM_EDGES if e <= BM_SIDE[c[1]]]
+        elif c[0] == "pedge":
+            if {c[1], c[2]} not in BM_EDGES:
+                return None
+            touched = [(frozenset((c[1], c[2])), c[3])]
+        elif c[0] == "redges":
+            cs = range(4) if c[2] == "all" else [] if c[2] == "-" else [int(x) for x in c[2].split("+")]
+            for k in cs:
+                lab.pop(frozenset(_slot_pair(("b" if c[1] == "bottom" else "t") + str(k))), None)
+        elif c[0] == "sameproj":
+            for slot in (c[1], c[2]):
+                lab[frozenset(_slot_pair(slot))] = {c[3]}
+        elif c[0] in ("sideedge", "faceedge"):
+            i = c[1] if c[0] == "sideedge" else c[2]
+            if not 0 <= i <= 3:
+                return None
+            lab[frozenset(_slot_pair(("s" if c[0] == "sideedge" else c[1][0]) + str(i)))] = {c[-1]}
+        elif c[0] == "patch" and c[1] not in BM_SIDE:
+            return None
+        elif c[0] == "patchL" and any(x not in BM_SIDE for x in c[1].split("+") if c[1] != "-"):
+            return None
+        elif c[0] in ("pcorner", "pcornerL") and not 0 <= c[1] < 8:
+            return None
+        for e, l in touched:
+            lab.setdefault(e, set()).add(l)
+            if len(lab[e]) > 2:
+                return e
+    return None
+
+
 def _fr(x) -> str:
     return core.rat(Fraction(x))
 
@@ -182,7 +222,7 @@ class C10(core.Check):
             base = rng.choice(["loft"] * 5 + ["box", "extrude", "revolve", "revolve", "wedge", "wedge"])
             for _ in range(rng.randint(1, 6)):
                 r = rng.random()
-                lab = rng.choice(["g1", "g2"])
+                lab = rng.choice(["g1", "g2"] * 4 + ["g3"])  # a third surface: an edge takes at most two
                 if base == "wedge" and r < 0.12:
                     calls.append(["wedgepatch", rng.choice(["set_inner_patch", "set_outer_patch"]), rng.choice(["pa", "pb", "pc"])])
                 elif r < 0.04:
@@ -831,9 +871,13 @@ class C10(core.Check):
         if case["kind"] in ("geo", "box", "extrude", "connector", "revolvegeo", "wedgegeo"):
             return self._oracle_geo(case, impl)
         base = case.get("base", "loft")
+        overflow = _third_surface(case["calls"])
+        if "reject" not in impl and overflow:
+            out.append({"site": "Project.add_label:third-surface-accepted", "what": f"{case['calls']}: edge {sorted(overflow)} is projected to three surfaces"})
+            return out
         if "reject" in impl:
-            # a rejection is a violation only when every call was a valid one
-            valid = all(
+            # a rejection is a violation only when every call was a valid one and no edge was given a third surface
+            valid = overflow is None and all(
                 (c[0] in ("patch", "pside") and c[1] in BM_SIDE)
                 or (c[0] == "patchL" and all(x in BM_SIDE for x in c[1].split("+") if c[1] != "-"))
                 or c[0] in ("redges", "sameproj")
